@@ -148,6 +148,10 @@ class Contract:
 
     yields_nodup = True
 
+    def yield_order(self, c0, a, v):
+        """Optional: Int key of value v; the generator must yield in increasing key order (single yield site)."""
+        return None
+
     def yields_must(self, c0, a, v):
         """Optional lower bound when the result is only specified as a sandwich MUST <= result <= MAY
         (yields() is then the upper bound MAY).  None: the result is exactly yields()."""
@@ -455,6 +459,12 @@ class Contract:
                 m = self.yields(c0, a, v)
                 obls.append(Obligation("yields.sound/site%d" % k, s.assumptions() + [defs, cond], m,
                                        info={"site": b.tag, "path": s.trace}))
+                key = self.yield_order(c0, a, v)
+                if key is not None:
+                    ok = b.last_order is not None and len(bags) == 1
+                    obls.append(Obligation("yields.ordered/site%d" % k, s.assumptions() + [defs, cond],
+                                           (b.last_order == key) if ok else z3.BoolVal(False),
+                                           info={"site": b.tag, "path": s.trace}))
                 k += 1
         v = fresh("m", Val)
         mem = self.yields_must(c0, a, v)
